@@ -1,2 +1,133 @@
+(* C29 Finite-shot sampling follows the Born rule -- the LOGIC half.
+   Statements only; every proof is `exact <lemma>` from Disc/SamplingProofs.v.
+   The random generator is an oracle: a list of rational uniform variates u (type Q) in [0,1).
+   A probability vector is a list of integer weights w (p_k = w_k / sum w).
+   The statistical half of the property (the real PRNGs produce the Born distribution) is a TEST
+   in harness/props/c29.py, not a theorem. *)
+From Coq Require Import List ZArith Bool QArith Lia.
 From PLV Require Import Disc.SamplingModel Disc.SamplingProofs.
-Theorem placeholder : True. Proof. exact placeholder_true. Qed.
+From PLV Require Disc.ShotsModel.
+Import ListNotations.
+Open Scope Z_scope.
+
+(* index <-> bitstring: inverse maps, for every number of wires *)
+Theorem bits_of_index_bijective :
+  (forall n k, 0 <= k < 2 ^ Z.of_nat n ->
+     length (bits_of_index n k) = n /\ index_of_bits (bits_of_index n k) = k) /\
+  (forall bs, 0 <= index_of_bits bs < 2 ^ Z.of_nat (length bs) /\
+              bits_of_index (length bs) (index_of_bits bs) = bs).
+Proof.
+  split; [intros n k H; split; [apply bits_length | now apply index_of_bits_of_index]
+         | intros bs; split; [apply index_range | apply bits_of_index_of_bits]].
+Qed.
+Print Assumptions bits_of_index_bijective.
+
+(* big-endian: column j of the sample is bit n-1-j of the basis-state index (wire 0 = most significant) *)
+Theorem bits_are_big_endian : forall n k j, (j < n)%nat ->
+  nth j (bits_of_index n k) false = Z.testbit k (Z.of_nat (n - 1 - j)).
+Proof. exact bits_big_endian. Qed.
+Print Assumptions bits_are_big_endian.
+
+(* pushforward: choice returns k exactly for u in [cdf k, cdf (k+1)), an interval of length p_k *)
+Theorem pushforward_exact : forall w u k, nonneg w -> 0 < sumZ w -> (0 <= u)%Q -> (k < length w)%nat ->
+  (choice_idx w u = Z.of_nat k <-> (cdf w k <= u)%Q /\ (u < cdf w (S k))%Q) /\
+  (cdf w (S k) - cdf w k == prob w k)%Q.
+Proof. intros w u k H1 H2 H3 H4. split; [now apply choice_interval_lemma | apply interval_length_lemma]. Qed.
+Print Assumptions pushforward_exact.
+
+(* every u in [0,1) selects exactly one outcome, it is in range, and it never has probability 0 *)
+Theorem choice_total : forall w u, nonneg w -> 0 < sumZ w -> unit_interval u ->
+  (exists k, (k < length w)%nat /\ choice_idx w u = Z.of_nat k /\ 0 < nth k w 0) /\
+  (exists! k, (k < length w)%nat /\ (cdf w k <= u)%Q /\ (u < cdf w (S k))%Q).
+Proof.
+  intros w u H1 H2 H3. split; [|now apply choice_unique_lemma].
+  destruct (choice_total_lemma w u H1 H2 H3) as (k & Hk & E). exists k. split; [assumption|]. split; [assumption|].
+  exact (choice_positive_lemma w u k H1 H2 (proj1 H3) Hk E).
+Qed.
+Print Assumptions choice_total.
+
+(* marginalisation onto any wire list: total mass preserved; entry j = sum over the basis states whose
+   measured wires spell j (the unmeasured bits are summed out); entries stay non-negative *)
+Theorem marginal_sums : forall n mw w, length w = (2 ^ n)%nat ->
+  sumZ (marginal n mw w) = sumZ w /\
+  length (marginal n mw w) = (2 ^ length mw)%nat /\
+  (nonneg w -> nonneg (marginal n mw w)) /\
+  (forall j, 0 <= j < 2 ^ Z.of_nat (length mw) ->
+     nth (Z.to_nat j) (marginal n mw w) 0 =
+     sumZ (map snd (filter (fun kw => index_of_bits (select mw (bits_of_index n (fst kw))) =? j)
+                           (combine (basis_states n) w)))).
+Proof.
+  intros n mw w H. split; [now apply marginal_total|]. split; [apply marginal_length|].
+  split; [apply marginal_nonneg | intros j Hj; now apply marginal_entry].
+Qed.
+Print Assumptions marginal_sums.
+
+(* counts of one bin total the number of samples in it (wire counts and observable counts) *)
+Theorem counts_total_is_shots : forall n ws all rows l, Forall (fun r => length r = n) rows ->
+  process n (MCounts ws all) rows = RCounts l -> sumZ (map snd l) = lenZ rows.
+Proof. exact counts_total_lemma. Qed.
+Print Assumptions counts_total_is_shots.
+
+Theorem counts_obs_total_is_shots : forall n ws eigs all rows l, Forall (fun r => length r = n) rows ->
+  length eigs = (2 ^ cols n ws)%nat ->
+  process n (MCountsObs ws eigs all) rows = RCounts l ->
+  sumZ (map snd l) = lenZ rows /\ Forall (fun kc => In (fst kc) eigs) l.
+Proof. exact counts_obs_total_lemma. Qed.
+Print Assumptions counts_obs_total_is_shots.
+
+(* the per-bin slices concatenate to the whole sample array, their sizes are the shot vector,
+   and the bins are those of C44's model of Shots.bins() *)
+Theorem bins_partition_samples : forall (rows : list (list bool)) sv, nonneg sv -> lenZ rows = sumZ sv ->
+  concat (map (slice rows) (bins_from 0 sv)) = rows /\
+  map (fun b => lenZ (slice rows b)) (bins_from 0 sv) = sv /\
+  length (bins_from 0 sv) = length sv /\
+  bins_from 0 sv = Disc.ShotsModel.bins_from 0 sv.
+Proof.
+  intros rows sv H1 H2. destruct (bins_partition_lemma rows sv H1 H2) as (A & B & C).
+  split; [exact A|]. split; [exact B|]. split; [exact C|]. apply bins_same_as_C44.
+Qed.
+Print Assumptions bins_partition_samples.
+
+(* every eigenvalue sample is a member of the eigenvalue list (fast path 1-2b and lookup alike) *)
+Theorem samples_are_valid_eigenvalues : forall n ws eigs rows l, Forall (fun r => length r = n) rows ->
+  length eigs = (2 ^ cols n ws)%nat ->
+  process n (MSampleObs ws eigs) rows = REig l -> Forall (fun v => In v eigs) l /\ length l = length rows.
+Proof. exact eig_samples_valid_lemma. Qed.
+Print Assumptions samples_are_valid_eigenvalues.
+
+(* sample_state end to end: shots rows, each a bitstring over the sampled wires whose marginal
+   probability is positive *)
+Theorem sample_state_valid : forall be n D w wires shots us rows rest,
+  0 <= shots -> 0 < sumZ w -> Forall unit_interval us ->
+  sample_state be n D w wires shots us = Ok (rows, rest) ->
+  lenZ rows = shots /\
+  Forall (fun row => length row = length (wires_or_all n wires) /\
+                     0 < nth (Z.to_nat (index_of_bits row)) (marginal n (wires_or_all n wires) w) 0) rows.
+Proof. exact sample_state_valid_lemma. Qed.
+Print Assumptions sample_state_valid.
+
+(* measure_with_samples (one group) end to end: one result row per shot-vector entry and every counts
+   dictionary in bin i totals sv[i] *)
+Theorem measure_counts_per_bin : forall be n D w sv mps us part bins,
+  nonneg sv -> 0 < sumZ w -> Forall unit_interval us ->
+  measure be n D w sv mps us = Ok (part, bins) ->
+  length bins = length sv /\
+  forall i s bin j ws all l, nth_error sv i = Some s -> nth_error bins i = Some bin ->
+    nth_error mps j = Some (MCounts ws all) -> nth_error bin j = Some (RCounts l) ->
+    sumZ (map snd l) = s.
+Proof. exact measure_counts_lemma. Qed.
+Print Assumptions measure_counts_per_bin.
+
+(* non-vacuity: a normalised 2-wire state, a shot vector (2,1) and three admissible variates *)
+Example hyps_satisfiable :
+  let w := [1; 0; 2; 1] in let us := [0 # 1; 1 # 4; 3 # 4]%Q in
+  nonneg w /\ 0 < sumZ w /\ Forall unit_interval us /\ nonneg [2; 1] /\
+  sample_state BNumpy 2 4 w [1; 0]%nat 3 us
+    = Ok ([[false; false]; [false; true]; [true; true]], []) /\
+  measure BNumpy 2 4 w [2; 1] [MCounts [] false; MSampleObs [0%nat] [1; -1]] us
+    = Ok (true, [[RCounts [(0, 1); (2, 1)]; REig [1; -1]]; [RCounts [(3, 1)]; REig [-1]]]).
+Proof.
+  cbv zeta. split; [repeat constructor; lia|]. split; [reflexivity|].
+  split; [repeat constructor; unfold Qle, Qlt; cbn; lia|]. split; [repeat constructor; lia|].
+  split; vm_compute; reflexivity.
+Qed.
